@@ -63,6 +63,9 @@ def group(pid, metas):
                         suspicious.append(rec.get("obligation"))
             if suspicious:
                 print("SUSPICIOUS (proof obligation outside the patched modules):", os.path.basename(d), suspicious, flush=True)
+                keep = f"/dev/shm/suspicious_{os.path.basename(d)}_{int(time.time())}"
+                shutil.copytree(out, keep, dirs_exist_ok=True)
+                open(os.path.join(keep, "stdout.txt"), "w").write(c.stdout)
             res.append((m, c.returncode, {"exit": c.returncode, "violations": len(viol), "first": first,
                                           "summary": lines[-1][:200] if lines else "", "wall_s": round(time.time() - t0, 1)}))
     finally:
